@@ -2,13 +2,17 @@
 import json
 import time
 
-from extract import counter_styles
+from extract import counter_styles, first_letter_table
+from harness import c15_desc as DV
 from harness import c15_dom as D
+from harness import c15_judges as J
+from harness import c15_pages as P
 from harness import c15_spec as SP
 from harness import c15_styles as S
+from harness import c15_text as X
 from harness import c15_toc as T
 from harness import docs
-from vlib import sx
+from vlib import lean, sx
 from vlib.framework import PropCheck
 
 BOUNDARY_VALUES = [3999, 4000, 4999, 5000, 9999, 10000, 10999, 11000, 19999, 20000]
@@ -145,10 +149,13 @@ OSCILLATION_HTML = (
 
 class C15(PropCheck):
     id = 'C15'
-    extractors = (counter_styles.generate,)
-    modules = ('WpModel.Props.C15', 'WpModel.Witness.C15')
+    extractors = (counter_styles.generate, first_letter_table.generate)
+    modules = ('WpModel.Props.C15', 'WpModel.Props.C15Pages', 'WpModel.Props.C15Desc', 'WpModel.Props.C15Text',
+               'WpModel.Witness.C15')
     trusted_base = (
-        'modelled, not verified: css/counters.py (resolve_counter, render_value, render_marker), build.py '
+        'modelled, not verified: css/validation/descriptors.py (counter-style validators), css/targets.py '
+        '(cache_target_page_counters, lookup/store/check_pending), layout/page.py (counter section of make_page), '
+        'build.py (extract_text, box_text), css/counters.py (resolve_counter, render_value, render_marker), build.py '
         '(update_counters, scope push/pop of element_to_box, text markers, counter()/counters()/target-counter() '
         'items of compute_content_list), layout_document loop control and the re-make rule of make_all_pages',
         'Gen/CounterStyles.lean is the dictionary the real CSS parser and descriptor validators build from '
@@ -169,11 +176,27 @@ class C15(PropCheck):
 
     def correspondence(self, run):
         docs.quiet()
-        self._styles_ua(run)
-        self._styles_custom(run)
-        self._update_counters(run)
-        self._dom(run)
-        self._toc(run)
+        self._branch_lines = []
+        original = S.rv_line
+
+        def rv_line(*args):
+            line = original(*args)
+            if len(self._branch_lines) < 80000:
+                self._branch_lines.append('rvb' + line[2:])
+            return line
+        S.rv_line = rv_line
+        try:
+            self._styles_ua(run)
+            self._styles_custom(run)
+            self._update_counters(run)
+            self._dom(run)
+            self._toc(run)
+        finally:
+            S.rv_line = original
+        self._descriptors(run)
+        self._target_text(run)
+        self._cache_target(run)
+        self._branches(run)
 
     def _styles_ua(self, run):
         ua = S.ua_styles()
@@ -304,11 +327,33 @@ class C15(PropCheck):
             'toc-labels',
             'converged tables of contents: every printed target-counter(attr(href), page, style) equals the model\'s '
             'render_value of the page index of the target\'s first box (+1); non-trivial = target not on page 1')
+        pages_sec = run.section(
+            'page-counters',
+            'every make_page call of those renders: TargetCollector + page_maker state before, the anchors and '
+            'content lookup items page.descendants() shows to the counter section, state after and the parse_again '
+            'calls (Model/PageCounters.counterSection); non-trivial = the page shows an anchor or a lookup item')
+        entry_sec = run.section(
+            'next-entry', 'remake_page: the remake_state of the page_maker entry written for the following page')
         nonconverged = 0
         seen_decisions = set()
-        for i in range(run.n(160, 900)):
+        seen_entries = set()
+        for i in range(run.n(160, 700)):
             gen = T.gen_toc(run.rng, run.n(20, 60) if i % 3 else 6)
-            document, passes = T.render_recorded(gen['html'])
+            recorder, pages_rec = T.Recorder(), P.PageRecorder()
+            if gen['n'] <= 24:
+                with recorder.installed(), pages_rec.installed():
+                    document = docs.render(gen['html'])
+            else:       # the state snapshots of every make_page call grow with entries x pages x passes
+                with recorder.installed():
+                    document = docs.render(gen['html'])
+            passes = recorder.passes
+            meta_toc = {'kind': 'toc', 'html': gen['html'], 'style': gen['style']}
+            for line, out, tags in pages_rec.cases:
+                pages_sec.add(line, out, meta=meta_toc, nontrivial='lookup' in tags or 'anchor' in tags, tags=tags)
+            for line, out in pages_rec.entries:
+                if line not in seen_entries:
+                    seen_entries.add(line)
+                    entry_sec.add(line, out, meta=meta_toc)
             trace = [[p['pages'], [[cc, pw] for cc, pw in p['flags']]] for p in passes]
             loop.add(sx.line('loop', MAX_LOOPS, trace),
                      f'passes={len(passes)} pages={len(document.pages)}',
@@ -343,6 +388,71 @@ class C15(PropCheck):
                                meta={'kind': 'toc', 'html': gen['html'], 'style': gen['style']}, tags=['pages'])
         run.extra['toc_runs_hitting_max_loops'] = nonconverged
 
+
+    def _descriptors(self, run):
+        sec = run.section(
+            'descriptor-validators',
+            'the real @counter-style descriptor validators (system, negative, prefix, suffix, range, pad, fallback, '
+            'symbols, additive-symbols) on real tinycss2 tokens of plausible values and token soup; non-trivial = '
+            'the value is accepted')
+        for _ in range(run.n(5000, 60000)):
+            line, out, name, text = DV.dv_case(run.rng)
+            sec.add(line, out, meta={'kind': 'dv', 'descriptor': name, 'text': text}, nontrivial=out.startswith('('),
+                    tags=[name, 'accepted' if out.startswith('(') else out.split(' ')[0]])
+        rules = run.section(
+            'counter-style-rules',
+            'whole @counter-style rules through preprocess_stylesheet: which declarations survive, later ones win, '
+            'rule-level symbol-count checks, the registered dictionary; non-trivial = the rule is registered')
+        for _ in range(run.n(1500, 15000)):
+            line, out, css = DV.rule_case(run.rng)
+            rules.add(line, out, meta={'kind': 'rule', 'css': css}, nontrivial=out.startswith('('),
+                      tags=['registered' if out.startswith('(') else out.split(' ')[0]])
+        for _ in range(run.n(200, 1000)):
+            line, out, text = DV.name_case(run.rng)
+            rules.add(line, out, meta={'kind': 'csname', 'text': text}, nontrivial=out != 'none', tags=['name'])
+
+    def _target_text(self, run):
+        sec = run.section(
+            'target-text',
+            'build_formatting_structure on generated documents whose ::after boxes print target-text(…, content | '
+            'before | after | first-letter) of earlier, later, enclosing, hidden and missing elements: text of every '
+            '::after box; non-trivial = some box prints a non-empty target text')
+        skipped = 0
+        for _ in range(run.n(400, 4000)):
+            html = X.gen_document(run.rng)
+            case = X.text_case(html)
+            if case is None:
+                skipped += 1
+                continue
+            tags = [m for m in ('before', 'after', 'first-letter') if f', {m})' in html]
+            sec.add(case['line'], case['impl'], meta={'kind': 'tt', 'html': html},
+                    nontrivial=any(len(v) > 2 for v in (case['texts'] or {}).values()), tags=tags or ['content'])
+        run.extra['target_text_outside_model'] = skipped
+
+    def _cache_target(self, run):
+        sec = run.section(
+            'cache-target',
+            'TargetCollector.cache_target_page_counters called directly on generated collectors (real '
+            'TargetLookupItem / CounterLookupItem objects, a page_maker list): state after and parse_again calls; '
+            'non-trivial = some item is flagged or marked pending')
+        for _ in range(run.n(3000, 40000)):
+            line, out, tags, nontrivial = P.cache_target_case(run.rng)
+            sec.add(line, out, meta={'kind': 'ct', 'line': line}, nontrivial=nontrivial, tags=tags)
+
+    def _branches(self, run):
+        """Evidence only: which exit of the model's render_value the correspondence inputs take."""
+        import collections
+        lines = self._branch_lines
+        hist = collections.Counter(lean.run_driver(self.driver, lines)) if lines else {}
+        expected = [f'{s}:{k}' for s in ('cyclic', 'fixed', 'symbolic', 'alphabetic', 'numeric', 'additive')
+                    for k in ('initial', 'out-of-range->fallback')]
+        expected += ['fixed:unrepresentable->fallback', 'additive:unrepresentable->fallback',
+                     'unknown-style->decimal', 'unknown-style->empty', 'extends-unresolved->decimal',
+                     'alphabetic:too-few-symbols->decimal', 'numeric:too-few-symbols->decimal', 'numeric:err:IndexError',
+                     'cyclic:range-ValueError']
+        run.extra['render_value_branches'] = dict(hist.most_common())
+        run.extra['render_value_branches_never_hit'] = [b for b in expected if not any(h.startswith(b) for h in hist)]
+
     # ------------------------------------------------------------------ judge / search / replay
 
     def judge(self, d):
@@ -356,6 +466,12 @@ class C15(PropCheck):
             return self._judge_dom(meta['html'])
         if kind == 'toc':
             return self._judge_toc(meta['html'], meta['style'])
+        if kind == 'tt':
+            return self._judge_text(meta['html'])
+        if kind == 'ct':
+            return J.cache_target_clause(meta['line'])
+        if kind == 'rule':
+            return J.rule_clause(meta['css'])
         return None
 
     @staticmethod
@@ -422,6 +538,24 @@ class C15(PropCheck):
                         min(len(expected), len(case['obs'])))
             return (f'generated box #{diff}: printed {case["obs"][diff:diff + 1]}, CSS 2.1 12.4 scoping + '
                     f'css-counter-styles-3 give {expected[diff:diff + 1]}')
+        return None
+
+    @staticmethod
+    def _judge_text(html):
+        case = X.text_case(html)
+        if case is None:
+            return None
+        if case['texts'] is None:
+            return f'build_formatting_structure raised {case["impl"]}'
+        expected = J.target_text_reference(case['line'], case['texts'])
+        if expected is None:
+            return None
+        known = J.open_reference(case['line'])       # finding target-text-open-target-empty
+        for ident in sorted(expected):
+            got = case['texts'].get(ident)
+            if got != expected[ident] and ident not in known:
+                return (f'::after box of element #{ident} prints {got!r}; target-text() of the designated elements '
+                        f'gives {expected[ident]!r}')
         return None
 
     @staticmethod
@@ -492,6 +626,30 @@ class C15(PropCheck):
                 what = f'build raised {type(exc).__name__}: {exc}'
             if what and add(what, {'meta': {'kind': 'dom', 'html': html}}, html):
                 return found
+        for _ in range(300):
+            if time.time() > deadline:
+                break
+            html = X.gen_document(run.rng)
+            run.search_stats['evaluations'] += 1
+            try:
+                what = self._judge_text(html)
+            except Exception as exc:  # noqa: BLE001
+                what = f'build raised {type(exc).__name__}: {exc}'
+            if what and add(what, {'meta': {'kind': 'tt', 'html': html}}, html):
+                return found
+        for _ in range(1500):
+            line, _out, _tags, _nt = P.cache_target_case(run.rng)
+            run.search_stats['evaluations'] += 1
+            what = J.cache_target_clause(line)
+            if what and add(what, {'meta': {'kind': 'ct', 'line': line}}, line):
+                return found
+            _line, _out, css = DV.rule_case(run.rng)
+            try:
+                what = J.rule_clause(css)
+            except Exception:  # noqa: BLE001 - the empty `system:` value raises (reported for C07)
+                what = None
+            if what and add(what, {'meta': {'kind': 'rule', 'css': css}}, css):
+                return found
         for _ in range(120):
             if time.time() > deadline:
                 break
@@ -511,6 +669,8 @@ class C15(PropCheck):
             'extends-own-symbols-loses-sign': finding_extends_sign,
             'extends-empty-symbols-index-error': finding_extends_empty_symbols,
             'page-fixpoint-oscillation': finding_oscillation,
+            'target-counter-pages-forward-crash': finding_forward_pages,
+            'target-text-open-target-empty': finding_open_target_text,
         }
 
     def replay(self, data):
@@ -521,10 +681,14 @@ class C15(PropCheck):
         return None
 
 
+def corpus_html(finding_id):
+    from vlib.paths import CORPUS
+    return json.loads((CORPUS / 'C15' / f'{finding_id}.json').read_text())['html']
+
+
 def finding_range_auto():
     """`range: auto` is stored as ('auto',) and unpacked as a (min, max) pair."""
-    html = ('<style>@counter-style x { system: cyclic; symbols: a b; range: auto } li { list-style-type: x }</style>'
-            '<ol><li>q</li></ol>')
+    html = corpus_html('range-auto-crash')
     try:
         docs.render(html)
     except ValueError:
@@ -534,15 +698,13 @@ def finding_range_auto():
 
 def finding_extends_sign():
     """An `extends` style with too few own symbols falls back to decimal with the abs()-ed value."""
-    html = ('<style>@counter-style a { system: extends lower-alpha; symbols: x; range: infinite infinite }'
-            'p::before { content: counter(c, a) }</style><p style="counter-reset: c -5">x</p>')
+    html = corpus_html('extends-own-symbols-loses-sign')
     texts = [t for page in docs.page_texts(docs.render(html)) for t in page]
     return '5' in texts and '-5' not in texts
 
 
 def finding_extends_empty_symbols():
-    html = ('<style>@counter-style e { system: extends decimal; symbols: ; } p::before { content: counter(c, e) }'
-            '</style><p>x</p>')
+    html = corpus_html('extends-empty-symbols-index-error')
     try:
         docs.render(html)
     except IndexError:
@@ -552,7 +714,7 @@ def finding_extends_empty_symbols():
 
 def finding_oscillation():
     """The label `iii` wraps and pushes its target to page iv, `iv` fits and pulls it back."""
-    document, passes = T.render_recorded(OSCILLATION_HTML)
+    document, passes = T.render_recorded(corpus_html('page-fixpoint-oscillation'))
     labels, targets, _, _ = T.observe(document)
     ua = S.ua_styles()
     wrong = [1 for href, text, _ in labels
@@ -560,30 +722,52 @@ def finding_oscillation():
     return bool(wrong) and len(passes) >= MAX_LOOPS
 
 
+def finding_forward_pages():
+    """target-counter(attr(href), pages) whose target lies on a later page: `None >= 0` in make_page."""
+    html = corpus_html('target-counter-pages-forward-crash')
+    try:
+        docs.render(html)
+    except TypeError:
+        return True
+    return False
+
+
+def finding_open_target_text():
+    """target-text() of the element itself: its box has no children yet when ::after is computed."""
+    case = X.text_case(corpus_html('target-text-open-target-empty'))
+    return case is not None and case['texts'] is not None and '[]' in case['texts'].values()
+
+
 PROP = C15()
 
 MANIFEST = {
     'design_ref': 'DESIGN.md §4 C15',
     'technique': 'Lean 4 theorems over executable models of css/counters.py (render_value, render_marker, '
-                 'resolve_counter), build.py counter scoping and the layout_document re-pagination loop; the UA '
-                 'counter-style table is regenerated from the source each run; exact executable correspondence '
-                 'with the real functions (every predefined style x -50..5000, random @counter-style sheets '
-                 'through the real validators, generated DOMs, generated tables of contents)',
-    'text': 'Unbounded theorems: numeric and alphabetic systems are inverted by positional decoding (digits below the '
-            'base, no leading zero digit, injective), cyclic/fixed/symbolic index and repetition formulas, additive '
-            'greedy sum / order / zero weights skipped, out-of-range and unrepresentable values go to the fallback '
-            'style with the original value, fallback and extends chains terminate on every table whose decimal is '
-            'total (in particular the UA table plus any author styles), pad/negative length laws, marker = prefix + '
-            'value + suffix; the stack machine of update_counters / element_to_box (counter_values + counter_scopes) '
-            'produces exactly the texts of a reference semantics (frames of counter instances) for every element '
-            'tree and never raises on reachable states; list items count start+1, start+2, … independently of nested '
-            'lists; the re-pagination loop makes at most max_loops passes and, when it leaves by its break with sound '
-            'flags, every printed page number equals the page of its target and counter(pages) the page count.',
-    'note': 'Trusted: Lean kernel, the extractor, the harness mapping computed styles to the abstract tree. '
-            'Reaching the page fix point within 8 passes is not provable (finding page-fixpoint-oscillation: a real '
-            'document oscillates; Witness.C15.oscillation). Findings kept as _partial theorems + witnesses: '
-            'range:auto crashes render_value, an extends style with its own too-short symbols prints |value| in '
-            'decimal, extends + empty symbols raises IndexError on 0. Flag soundness of make_page / '
-            'cache_target_page_counters (hypothesis of fixpoint_consistent) is sampled by the toc-labels '
-            'correspondence, not modelled.',
+                 'resolve_counter), the @counter-style descriptor validators and rule registration, build.py counter '
+                 'scoping, target-counter / target-text evaluation order, TargetCollector.cache_target_page_counters '
+                 'and the counter section of make_page, the layout_document re-pagination loop; the UA counter-style '
+                 'table and the first-letter punctuation table are regenerated from the source each run; exact '
+                 'executable correspondence with the real functions (every predefined style x -50..5000, random '
+                 '@counter-style sheets and token soup through the real validators, generated DOMs, recorded '
+                 'make_page calls of generated tables of contents, direct calls of the TargetCollector)',
+    'text': 'Unbounded theorems: numeric and alphabetic systems are inverted by positional decoding, cyclic/fixed/'
+            'symbolic formulas, additive greedy sum / order, out-of-range and unrepresentable values go to the '
+            'fallback style with the original value, fallback and extends chains terminate on every table whose '
+            'decimal is total, pad/negative length laws, marker = prefix + value + suffix; what the descriptor '
+            'validators accept is what render_value can read (descending additive weights, ordered ranges, enough '
+            'symbols for every registered non-extends style: step 3 never raises) except range:auto; the stack machine '
+            'of update_counters / element_to_box produces exactly the texts of a reference semantics (frames) for '
+            'every element tree, counters() lists scopes outermost first, a target snapshot is the state after '
+            '::before and is never replaced, list items count start+1, start+2, … independently of nested lists; '
+            'cache_target_page_counters flags or marks pending every box printing a changed page counter, a pending '
+            'box is flagged when its page is made; the re-pagination loop makes at most max_loops passes and, when '
+            'it leaves by its break with sound flags, every printed page number equals the page of its target.',
+    'note': 'Trusted: Lean kernel, the extractors, the harness mapping computed styles / tokens / laid-out pages to '
+            'the abstract inputs. Findings kept as _partial theorems + witnesses + corpus/C15: range:auto crashes '
+            'render_value; an extends style with too few own symbols prints |value|; extends + empty symbols raises '
+            'IndexError on 0; target-counter(…, pages) forward reference raises TypeError in make_page; target-text() '
+            'of the element itself or an ancestor prints nothing; a real document oscillates past max_loops=8 '
+            '(Witness.C15.oscillation: reaching the page fix point is not provable). The link from the local flag '
+            'theorems (C15Pages) to World.Sound of fixpoint_consistent goes through an abstract layout function and '
+            'is sampled by the toc-labels correspondence, not proved.',
 }
